@@ -202,7 +202,25 @@ func timedUDP(kind string, T time.Duration, r *vrng) tresult {
 		mu.Unlock()
 		return nil
 	})))
-	compiled := RouteList{route}.Compile(zap.NewNop(), T, HandlerFunc(func(cx *Connection) error { res.fallback = true; return nil }))
+	routes := RouteList{route}
+	if kind == "udp-nonterminal-read-then-undecided" {
+		// route 0 matches the first datagram; its handler waits for one more datagram and passes on; route 1 never decides:
+		// matching must still end at the deadline computed when the connection entered the router
+		first := &Route{matcherSets: MatcherSets{MatcherSet{&vm{1, 0, 0}}}}
+		first.middleware = append(first.middleware, wrapHandler(NextHandlerFunc(func(cx *Connection, next Handler) error {
+			mu.Lock()
+			res.runs = append(res.runs, fmt.Sprintf("pre@%d", time.Since(start).Milliseconds()))
+			mu.Unlock()
+			buf := make([]byte, 64)
+			cx.Read(buf) // the datagram that matched
+			cx.Read(buf) // one more, arriving a little later
+			return next.Handle(cx)
+		})))
+		never := &Route{matcherSets: MatcherSets{MatcherSet{&vm{5000, 0, 0}}}}
+		never.middleware = route.middleware
+		routes = RouteList{first, never}
+	}
+	compiled := routes.Compile(zap.NewNop(), T, HandlerFunc(func(cx *Connection) error { res.fallback = true; return nil }))
 	pc, err := net.ListenPacket("udp", "127.0.0.1:0")
 	if err != nil {
 		res.err = err
@@ -245,6 +263,10 @@ func timedUDP(kind string, T time.Duration, r *vrng) tresult {
 		client.Write(r.bytes(4, 256))
 		go func() { time.Sleep(T * 6 / 10); client.Write(r.bytes(8, 256)) }()
 		res.expectRun = 0
+	case "udp-nonterminal-read-then-undecided":
+		client.Write(r.bytes(1, 256))
+		go func() { time.Sleep(T / 4); client.Write(r.bytes(1, 256)) }()
+		res.expectAbort = true
 	case "udp-trickle":
 		go func() {
 			for i := 0; i < 8; i++ {
@@ -292,7 +314,7 @@ func (res tresult) judge() (sig, desc string) {
 }
 
 func expectedRunsBeforeAbort(kind string) int {
-	if kind == "nonterminal-then-undecided" {
+	if kind == "nonterminal-then-undecided" || kind == "udp-nonterminal-read-then-undecided" {
 		return 1
 	}
 	return 0
@@ -303,7 +325,7 @@ func TestVerifTimed(t *testing.T) {
 	defer out.close()
 	r := &vrng{vseed()*2750159 + 41}
 	n := vcount(36)
-	kinds := []string{"silent", "late", "trickle", "flood", "handler-after-match", "nonterminal-then-undecided", "subroute", "udp-silent", "udp-late", "udp-trickle"}
+	kinds := []string{"silent", "late", "trickle", "flood", "handler-after-match", "nonterminal-then-undecided", "subroute", "udp-silent", "udp-late", "udp-trickle", "udp-nonterminal-read-then-undecided"}
 	type job struct {
 		idx  int
 		kind string
